@@ -188,6 +188,14 @@ def deref_sites(f):
                 out.append((n, strip_casts(n["c"][1])))
         elif k == "UnaryOperator" and n.get("op") == "*":
             out.append((n, strip_casts(n["c"][0])))
+        elif k == "CXXConstructExpr" and n.get("c"):
+            # std::string(const char*) reads through its argument: a null pointer throws std::logic_error
+            args = [c for c in n["c"] if c is not None and c["k"] != "CXXDefaultArgExpr"]
+            t = f.type(n)
+            if len(args) == 1 and t is not None and "basic_string<char" in t.get("c", "") and "vector" not in t.get("c", ""):
+                at = f.type(args[0])
+                if at is not None and at.get("c", "").replace("const ", "").strip() in ("char *", "char*"):
+                    out.append((n, strip_casts(args[0])))
     return out
 
 
